@@ -887,6 +887,16 @@ func (ctx *RenderContext) EvaluateExpression(node Node) (interface{}, error) {
 				}
 			}
 
+			// A macro of that name (reached as _self.name()) wins over a function
+			// of the same name, exactly as in a plain name() call
+			if macro, ok := ctx.GetMacro(n.name); ok {
+				if macroNode, ok := macro.(*MacroNode); ok {
+					return func(w io.Writer) error {
+						return macroNode.CallMacro(w, ctx, args...)
+					}, nil
+				}
+			}
+
 			// Fallback - try calling it like a regular function
 			if IsDebugEnabled() && debugger.level >= DebugVerbose {
 				LogVerbose("Fallback - calling '%s' as a regular function", n.name)
